@@ -8,6 +8,7 @@ import (
 	"os"
 	"reflect"
 	"runtime"
+	"strings"
 	"sync"
 	"testing"
 	"unsafe"
@@ -353,6 +354,22 @@ var c19Long = &vh.Prop[c19LongCase]{
 
 func TestC19LongHistory(t *testing.T) { c19Long.Check(t, vh.N(40, 400)) }
 
+// The same long histories decide C11's "interned strings never share memory with the
+// input" for table sizes that short cases do not reach; reported under C11.
+var c11Long = &vh.Prop[c19LongCase]{
+	ID: "C11", Name: "interned-long-history",
+	Gen: c19Long.Gen,
+	Run: func(c c19LongCase, x *vh.Ctx) *vh.Failure {
+		f := c19Long.Run(c, x)
+		if f != nil && strings.HasPrefix(f.Class, "C19/") {
+			f.Class = "C11/" + strings.TrimPrefix(f.Class, "C19/")
+		}
+		return f
+	},
+}
+
+func TestC11LongHistory(t *testing.T) { c11Long.Check(t, vh.N(25, 250)) }
+
 // TestC19HugeHistory (thorough): one history with more than 2^14 distinct
 // strings through the interned fields (table sizes no short history reaches).
 func TestC19HugeHistory(t *testing.T) {
@@ -363,7 +380,7 @@ func TestC19HugeHistory(t *testing.T) {
 		t.Fatalf("C19/long-history %s", f.Error())
 	}
 }
-func TestC19Schedules(t *testing.T)   { c19Sched.Check(t, vh.N(1200, 12000)) }
+func TestC19Schedules(t *testing.T) { c19Sched.Check(t, vh.N(1200, 12000)) }
 
 // TestC19Race: 2-8 free-running goroutines decode through one shared instance (run with -race).
 func TestC19Race(t *testing.T) {
@@ -440,4 +457,6 @@ func setStrings(ts *vh.TSpec, v *vh.Val, next func() []byte) {
 	}
 }
 
-func init() { registrars = append(registrars, c19Seq.Register, c19Sched.Register, c19Long.Register) }
+func init() {
+	registrars = append(registrars, c19Seq.Register, c19Sched.Register, c19Long.Register, c11Long.Register)
+}
